@@ -210,7 +210,7 @@ Qed.
    (cost against K times the octets taken, with what it leaves over), on failure the cost is paid
    by everything in reach plus a constant.  KK is the K of the final statements; the secret key
    material is parsed a second time from a copy, at the small rate K2. *)
-Definition KK : N := 1200.
+Definition KK : N := 2400.
 Definition K2 : N := 24.
 
 Definition rspec {A} (K : N) (st : rdr) (cf : N) (S : A -> rdr -> log -> Prop) (m : cres (A * rdr)) : Prop :=
@@ -910,7 +910,7 @@ Qed.
 
 (* the parser of a modelled tag: what it leaves over (four octets' worth for the packets read through
    peekVersion) and at most 900 for the structures *)
-Definition body_credit (tag : N) : N := if peeked_tag tag then 4 * KK else 0.
+Definition body_credit (tag : N) : N := if peeked_tag tag then 4800 else 0.
 
 Lemma rspec_weaken : forall A K st cf (S S' : A -> rdr -> log -> Prop) (m : cres (A * rdr)),
   (forall x st' l, S x st' l -> S' x st' l) -> rspec K st cf S m -> rspec K st cf S' m.
@@ -1003,7 +1003,7 @@ Proof.
   assert (FIN : forall (st0 : rdr) (l1 : log) (parsed : cres (tpacket * rdr)),
       rspec KK st0 301000 (fun _ st' lp => log_cost lp + KK * reach st' + body_credit tag <= KK * reach st0 + 900) parsed ->
       log_okc area_max l1 -> reach st0 <= reach st ->
-      log_cost l1 + KK * reach st0 + 900 <= KK * reach st + 1000 + body_credit tag ->
+      log_cost l1 + KK * reach st0 + 2128 <= KK * reach st + KK + body_credit tag ->
       match t_finish l1 parsed with ((x, r'), l) =>
           log_okc area_max l /\ bytes_ok r' = true /\
           match x with
@@ -1013,9 +1013,13 @@ Proof.
           end
       end).
   { intros st0 l1 parsed R O1 E0 E1. unfold rspec in R. unfold t_finish. destruct parsed as [[[p st']|e|e] l2].
-    - destruct R as [R1 [R2 [R3 [R4u R4b]]]]. unfold rdr_pos.
-      assert (lenN (r_und st') <= reach st') by (unfold rdr_rem; lia).
-      lc. split; [fin|]. split; [exact R4u|]. unfold KK in *. split; lia.
+    - destruct R as [R1 [R2 [R3 R4]]].
+      pose proof (rd_all_KK st' R4) as A. destruct (rd_all st') as [[[d ok] st2] l3].
+      destruct A as [A1 [A2 [A3 [A4 [A5u A5b]]]]]. unfold rdr_pos.
+      assert (lenN (r_und st2) <= reach st2) by (unfold rdr_rem; lia).
+      lc. destruct ok.
+      + split; [fin|]. split; [exact A5u|]. unfold KK in *. split; lia.
+      + split; [fin|]. split; [reflexivity|]. split; [reflexivity|]. unfold body_credit, KK in *. destruct (peeked_tag tag); lia.
     - destruct R as [R1 R2]. lc. destruct (String.eqb e "EOF"); (split; [fin|]); (split; [reflexivity|split; [reflexivity|unfold body_credit, KK in *; destruct (peeked_tag tag); lia]]).
     - destruct R as [R1 R2]. lc. split; [fin|]. split; [reflexivity|split; [reflexivity|unfold body_credit, KK in *; destruct (peeked_tag tag); lia]]. }
   destruct (peeked_tag tag) eqn:PT.
